@@ -270,6 +270,12 @@ def cbmc_unit(ctx, unit, sources, entry, enforce=None, replace=(), loop_contract
                    (vacuity guard: e.g. 'postcondition', 'loop_invariant_step').
     cex_vars: names of harness variables whose values are pulled from traces.
     """
+    try:
+        _env = os.environ.get("VERIF_TIMEOUT_SCALE")
+        _sc = max(1.0, float(_env)) if _env else max(1.0, min(5.0, 1.5 * os.getloadavg()[0] / (os.cpu_count() or 4)))
+    except Exception:
+        _sc = 1.0
+    timeout = int(timeout * _sc)      # wall-clock budget stretched on an oversubscribed machine (never affects soundness)
     only = os.environ.get("VERIF_ONLY")      # debugging aid only: run a subset of units
     if only and not re.search(only, unit):
         return []
